@@ -17,7 +17,7 @@ Theorem C13_cost_fixed : forall (P : policy) (c : cfg),
   0 < c_shards c -> exact_cost c -> C13_cost_full P c.
 Proof. intros P c Hn Hx now0 ops. exact (c13_cost P c Hn now0 ops Hx). Qed.
 
-(* the code as found refutes it, three ways *)
+(* the code as found refutes it, four ways (stale event, Fifo old cost, partial drain, dropped event) *)
 Theorem C13_cost_refuted_F28 : ~ C13_cost_full LruP (c13_cfg 3).
 Proof. exact c13_cost_refuted_F28. Qed.
 
@@ -26,6 +26,9 @@ Proof. exact c13_cost_refuted_F29. Qed.
 
 Theorem C13_cost_refuted_F34 : ~ C13_cost_full LruP (c13_cfg 4).
 Proof. exact c13_cost_refuted_F34. Qed.
+
+Theorem C13_cost_refuted_lossy : ~ C13_cost_full LruP (c13_cfg_intro 4).
+Proof. exact c13_cost_refuted_lossy. Qed.
 
 (* what holds of the code as found: no operation other than a maintenance pass
    (capacity cleanup) moves current_cost away from the resident cost; clear resets both *)
